@@ -72,8 +72,8 @@ def run(chk):
         chk.cov.setdefault("extraction", []).append(st)
         runs.append((maxpool, behs))
     # 2b. unique resources: producer registrations colliding on owner key, node key and nickname
-    prod = dict(txs=["R1", "R2", "R3", "R4", "T1"], blocks=2, tpb=2, bad=0, deliver=3 if thorough else 2, submit=3, maxpool=100000)
-    r = vf.tlc("Chain", "Mempool", "mcp.cfg", cfg_text=cfg(inv=INV, **dict(prod, deliver=3)), workers=16, timeout=1700)
+    prod = dict(txs=["R1", "R2", "R3", "R4", "T1"], blocks=2, tpb=2 if thorough else 1, bad=0, deliver=2, submit=3, maxpool=100000)
+    r = vf.tlc("Chain", "Mempool", "mcp.cfg", cfg_text=cfg(inv=INV, **dict(prod, tpb=2, deliver=3 if thorough else 2)), workers=16, timeout=1700)
     vf.tlc_ok(r, "Mempool exhaustive (producers)")
     chk.add_tlc(r, "exhaustive Mempool.tla with producer registrations: %s" % json.dumps(prod))
     r = vf.tlc("Chain", "Mempool", "xp.cfg", cfg_text=cfg(extra="ACTION_CONSTRAINT MEmit", **prod), workers=1, timeout=1700)
